@@ -536,6 +536,8 @@ class World:
                 if alive:
                     oc = [self.conns[i - 1] for k, i in alive if k == "c"]
                     key, what = self._leak_key(oc)
+                    if key == "overlap-with-closing-connection":
+                        key, what = None, None
                     return self.violation(key or "stop-fired-with-open-connection",
                                           (what + "; " if what else "") + "a stopService Deferred fired while a connection/attempt that existed at the stop call is still alive",
                                           {"stop": rec["id"], "still_alive": alive})
